@@ -301,13 +301,17 @@ def oracle_c19(case, res, guard=True):
                         inside = fdw <= ldate(src[0][2], src[0][3]) <= tdw
                         if inside and link is None: return f"{r[1]} Tax row {r[2]}: {what} {tx} lies inside the window [{case['from']}, {case['to']}] but carries no link"
                         if (not inside) and link is not None: return f"{r[1]} Tax row {r[2]}: {what} {tx} is hidden by the date filter [{case['from']}, {case['to']}] but links to {link}"
-        if r[0] == "SU" and r[6] is not None:
+        if r[0] == "SU":
             if guard and not P.local_dates_monotone({"rows": case["assets"][r[2]]}): continue      # finding F15 (hypothesis LocalDatesMonotone)
-            sheet, row = r[6]
-            if sheet != f"{r[2]} Tax": return f"Summary row {r[1]} links to sheet {sheet}"
             det = [d for d in res["rows"] if d[0] == "TD" and d[1] == r[2]]; rows_a = {a: rws for a, rws in case["assets"].items()}
             yr = lambda d: ldate(*[(x[2], x[3]) for x in rows_a[r[2]] if x[1] == d[3]][0]).year
             first = [d[2] for d in det if yr(d) == r[3]]
+            if r[6] is None:
+                # a Summary line without a link is right only when the date filter hides every gain / loss row of that year
+                if first: return f"Summary row {r[1]} ({r[2]}, {r[3]}) carries no link although the {r[2]} Tax sheet shows gain / loss rows of that year (first: row {min(first)})"
+                continue
+            sheet, row = r[6]
+            if sheet != f"{r[2]} Tax": return f"Summary row {r[1]} links to sheet {sheet}"
             if not first or row != min(first): return f"Summary row {r[1]} ({r[2]}, {r[3]}) links to row {row}, first detail row of that year is {min(first) if first else None}"
     return None
 def oracle_c13(case, res, guard=True):
